@@ -648,7 +648,8 @@ impl<R: BufRead> Read for Dearmor<R> {
                     self.current_part = Part::Done(b);
                     return Ok(read);
                 }
-                Part::Temp => panic!("invalid state"),
+                // A previous call failed part-way: keep reporting an error.
+                Part::Temp => return Err(io::Error::other("dearmor: previous read failed")),
             }
         }
     }
